@@ -89,6 +89,22 @@ def run(ctx, info):
             jobs.append({"opt": nm, "cfg": {"max_cycles": r.choice([5, 10, 20, 40]), "population_size": P, "fitness_error": None},
                          "task": search.cont_task(obj=r.choice(["sphere", "rastrigin", "step", "linear"]), minmax=r.choice(["min", "max"]), seed=r.randint(0, 10**6),
                                                   dim=r.choice([2, 3, 5]), lo=-5.0, hi=5.0)})
+    # "x configurations": the edge of what the validators accept - the smallest populations, each numeric parameter at the smallest / largest accepted value
+    # (trim counts computed from a fraction of a tiny population, ceil / floor of products ...).  All of them for optimizers whose facts or source changed,
+    # a sample otherwise (thorough: all)
+    from .. import validators
+    edge = []
+    for nm in list(pinned) + list(observed):
+        hot = nm in changed or nm in focus
+        for cfg in validators.edge_configs(nm):
+            for mm in ("min", "max"):
+                for _ in range(3 if hot else 1):
+                    edge.append((hot, {"opt": nm, "cfg": {**cfg, "max_cycles": 12, "fitness_error": None},
+                                       "task": search.cont_task(obj=r.choice(["sphere", "rastrigin"]), minmax=mm, seed=r.randint(0, 10**6), dim=r.choice([2, 3]), lo=-5.0, hi=5.0)}))
+    cold = [j for h, j in edge if not h]
+    edge_jobs = [j for h, j in edge if h] + (r.sample(cold, min(len(cold), 150 * boost)) if ctx.quick else cold)
+    ctx.coverage["edge_configurations"] = {"available": len(edge), "run": len(edge_jobs)}
+    jobs += edge_jobs
     obs = search.run_jobs(jobs)
     n_ok = 0
     for o in obs:
